@@ -21,13 +21,9 @@ struct ImplOf<yaclib::detail::Atomic<Impl, T>> {
 
 template <typename A, typename T>
 void Common(A& a, T x, T y) {
-  // `a = x` is ill-formed on the derived wrapper (the implicit copy assignment hides AtomicBase::operator=),
-  // so the body is reached through the base sub-object
-  // (under FIBER even that body is ill-formed: Impl::operator= resolves to the implicit copy assignment)
-#if YACLIB_FAULT != 2
-  using Base = yaclib::detail::AtomicBase<typename ImplOf<A>::type, T>;
-  (void)(static_cast<Base&>(a) = x);
-#endif
+  // (well-formed since the fix of F16: before it the implicit copy assignment of every derived class hid
+  // AtomicBase::operator=(T), and the fiber implementation had no operator=(T) at all)
+  (void)(a = x);
   a.store(x);
   a.store(x, kO);
   (void)a.load();
@@ -47,10 +43,7 @@ void Common(A& a, T x, T y) {
 // volatile twins: only those members whose bodies are well-formed on a volatile object
 template <typename A, typename T>
 void CommonVolatile(volatile A& a, T x, T y) {
-#if YACLIB_FAULT != 2
-  using Base = yaclib::detail::AtomicBase<typename ImplOf<A>::type, T>;
-  (void)(static_cast<volatile Base&>(a) = x);
-#endif
+  (void)(a = x);
   a.store(x);
   (void)a.load();
   (void)a.exchange(x);
